@@ -9,7 +9,8 @@ from .. import terms as T
 ID = "C10"
 LEVEL = "fault_enumeration"
 RULE = ("valid delimited streams (2-30 frames; written by pyjelly and by the reference producer) are cut at EVERY byte offset "
-        "0..len and each prefix is parsed with parse_jelly_flat of both integrations (parse_jelly_grouped too in thorough), from a "
+        "0..len and each prefix is parsed with parse_jelly_flat of both integrations (in 40% of the streams also through the two-step "
+        "get_options_and_frames + parse_jelly_flat(frames=, options=) path; parse_jelly_grouped too in thorough), from a "
         "BytesIO and from one other source per cut (a real file on disk; non-seekable raw, raw one byte at a time, buffered - each reports end-of-file after the "
         "cut and trips a logical-step guard if the parser polls it 2000 times at end-of-file). "
         "With S the full event list and F(k) the events of the frames lying wholly inside the first k bytes, the yielded list "
@@ -101,10 +102,10 @@ def cut_source(src: str, prefix: bytes):
 
 def judge_cut(integ: str, entry: str, data: bytes, k: int, S: list, complete_before: int, src: str = "bytesio"):
     """-> witness or None"""
-    if entry == "flat":
+    if entry in ("flat", "flat-preread-header"):
         inp = cut_source(src, data[:k])
         try:
-            got, exc = pj.run_flat_collect(integ, inp)
+            got, exc = pj.run_flat_collect(integ, inp, preread=entry == "flat-preread-header")
         except sources.EOFSpin as spin:
             return {"clause": "spins-at-end-of-input", "source": src,
                     "summary": f"{integ}:{entry} cut at {k} supplied as {src}: {spin} (neither ends nor raises)"}
@@ -166,7 +167,7 @@ def run_stream(ctx, vs, integs, entries):
         ctx.observe(f"cut:{kind}")
         for integ in integs:
             for entry in entries:
-                cb = complete if entry == "flat" else len([e for e in res.events[:complete] if e[0] == "stmt"])
+                cb = complete if entry.startswith("flat") else len([e for e in res.events[:complete] if e[0] == "stmt"])
                 # the in-memory buffer always; one other source type per (stream, cut), rotating
                 srcs = ["bytesio"] + ([SOURCES[1 + (k + len(data)) % (len(SOURCES) - 1)]] if entry == "flat" else [])
                 for src in srcs:
@@ -193,6 +194,8 @@ def run_shard(ctx):
             continue
         integs = ["generic"] if mode == "generic" else ["generic", "rdflib"]
         entries = ["flat"] if ctx.tier == "quick" and rng.random() < .7 else ["flat", "grouped"]
+        if rng.random() < .4:
+            entries.append("flat-preread-header")       # get_options_and_frames first, then parse_jelly_flat(frames=, options=)
         ctx.observe("streams")
         ctx.observe(f"producer:{vs['producer']}")
         run_stream(ctx, vs, integs, entries)
@@ -210,7 +213,7 @@ def replay(w: dict):
         tot += len(evs)
         if fr["span"][1] <= k:
             complete = tot
-    cb = complete if w["entry"] == "flat" else len([e for e in res.events[:complete] if e[0] == "stmt"])
+    cb = complete if w["entry"].startswith("flat") else len([e for e in res.events[:complete] if e[0] == "stmt"])
     return judge_cut(w["integration"], w["entry"], data, k, S, cb, w.get("source", "bytesio"))
 
 
